@@ -175,17 +175,23 @@ theorem src_shape (c : SrcConn) (typ : BitVec 8) :
   -- first, while every `Decidable` instance still matches its proposition syntactically
   simp only [decide_eq_true_eq]
   simp only [src_nonce]
-  by_cases h1 : (c.config.DynamicRecordSizingDisabled || typ != 23#8) = true
-  · simp only [h1, if_true, pure, Except.pure]
-  by_cases h2 : BitVec.sle 131072#64 c.bytesSent = true
-  · simp only [h1, h2, if_true, if_false, pure, Except.pure, Bool.false_eq_true]
-  simp only [h1, h2, if_false]
+  -- The proof does not follow the order or the spelling of the statements: every condition the
+  -- function can test is decided first (each atom on its own, so `a || b` and `b || a`, or the two
+  -- early returns swapped, make no difference), then both sides are straight-line arithmetic, closed
+  -- up to commutative-ring / linear normalisation (`1208 - (5 + n)` vs `1203 - n`, `a * b` vs `b * a`,
+  -- `n = 16384` vs an early `return 16384`).  A renaming or an equivalent re-arrangement of the Go
+  -- function is accepted; a different value for any view is not (`srcResult` is fixed).
+  cases hd : c.config.DynamicRecordSizingDisabled <;>
+  by_cases ht : typ = 23#8 <;>
+  by_cases h2 : BitVec.sle 131072#64 c.bytesSent = true <;>
   cases h : c.out.cipher <;>
-    simp only [bind, Except.bind, pure, Except.pure, Src.tlcp.goAEAD.Overhead, Src.tlcp.goCBC.BlockSize,
-      Src.tlcp.goSized.Size, Id.run, bne_self_eq_false, Bool.false_eq_true, if_false,
-      bne_iff_ne, ne_eq, reduceCtorEq, not_false_eq_true, if_true, decide_eq_true_eq, Int.sub_zero,
+  by_cases h3 : BitVec.slt 1000#64 c.packetsSent = true <;>
+    simp only [hd, ht, h2, h3, bind, Except.bind, pure, Except.pure, Src.tlcp.goAEAD.Overhead, Src.tlcp.goCBC.BlockSize,
+      Src.tlcp.goSized.Size, Id.run, bne_self_eq_false, Bool.false_eq_true, if_false, Bool.or_false, Bool.false_or,
+      Bool.or_true, Bool.true_or, Bool.or_self,
+      bne_iff_ne, ne_eq, reduceCtorEq, not_false_eq_true, not_true_eq_false, if_true, decide_eq_true_eq, Int.sub_zero,
       apply_ite (Except.ok (ε := String))] <;>
-    (first | done | rfl | (simp; done))
+    (first | done | rfl | grind)
 
 /-- the function touches nothing but `packetsSent` -/
 theorem srcResult_frame (c : SrcConn) (typ : BitVec 8) :
